@@ -353,3 +353,53 @@ def free_run(ctx, scenarios, rounds=1, race=True, name="free", timeout=1500):
     sp = os.path.join(d, "free.summary.json")
     summ = json.load(open(sp)) if os.path.exists(sp) else {"traces": 0, "events": 0}
     return trace, summ, out
+
+
+# ----------------------------------------------------------------------------------------------
+# Get-frequency pipeline (spec/cache/Ring.tla, harness/cache/ring_test.go.txt)
+
+RING_FILES = ["cache/Ring.tla", "cache/MC_Ring.cfg", "cache/MC_Ring_defect.cfg", "cache/SIM_Ring.cfg"]
+RING_OVERLAYS = {
+    "verif_trace_test.go": ("common/vtrace_test.go.txt", "ristretto"),
+    "verif_sched_test.go": "cache/sched_test.go.txt",
+    "verif_ring_test.go": "cache/ring_test.go.txt",
+}
+
+
+def ring_phase(ctx, num, race=False):
+    """Model-check Ring.tla, replay Eager-mode behaviours on the real ring/policy pipeline.
+    Returns (states, transitions, trace path, summary)."""
+    mc = vlib.tlc(ctx, RING_FILES, "Ring", "MC_Ring.cfg", name="mc-ring", timeout=900)
+    if not mc.ok:
+        raise Inconclusive("Ring.tla did not pass TLC: %s" % (mc.violated or mc.error))
+    sim = vlib.tlc(ctx, RING_FILES, "Ring", "SIM_Ring.cfg", name="sim-ring", workers=4, timeout=600,
+                   simulate={"num": (num + 3) // 4, "depth": 45, "file": "beh"})
+    if not sim.ok:
+        raise Inconclusive("Ring.tla simulation failed: %s" % (sim.error or sim.violated))
+    out = os.path.join(ctx.scratch, "ring-beh.jsonl")
+    n = 0
+    with open(out, "w") as f:
+        for fn in vlib.list_behaviour_files(sim.dir, "beh"):
+            n += 1
+            rec = {"id": n, "capa": 2, "steps": []}
+            for st in vlib.parse_behaviour_file(fn):
+                s = st["state"]
+                freq, gets = _fn(s["freq"]), _fn(s["gets"])
+                cur_empty = s["cur"]["a"] == 0
+                can_run = (cur_empty and len(s["ch"]) > 0) or ((not cur_empty) and not s["plock"])
+                rec["steps"].append({"a": st["action"], "args": st["args"], "s": {
+                    "ch": len(s["ch"]), "kept": s["kept"], "dropped": s["dropped"],
+                    "freq": {str(k): v for k, v in freq.items()}, "gets": {str(k): v for k, v in gets.items()},
+                    "idle": not can_run}})
+            f.write(json.dumps(rec) + "\n")
+    rc, o, d = vlib.go_test(ctx, ".", RING_OVERLAYS, "^TestVerifRing$", env={"VERIF_INPUT": out}, race=race, timeout=900, name="ring")
+    trace = os.path.join(d, "ring.ndjson")
+    sp = os.path.join(d, "ring.summary.json")
+    if "WARNING: DATA RACE" in o and os.path.exists(trace):
+        i = o.index("WARNING: DATA RACE")
+        with open(trace, "a") as f:
+            f.write(json.dumps({"ev": "Race", "what": o[i:i + 1800]}) + "\n")
+    elif rc != 0 or not os.path.exists(sp):
+        raise Inconclusive("ring driver failed (rc=%s):\n%s" % (rc, o[-2500:]))
+    summ = json.load(open(sp)) if os.path.exists(sp) else {"traces": 0, "events": 0, "drift": 0, "behaviours": 0, "steps": 0}
+    return mc.distinct, mc.generated, trace, summ
